@@ -127,4 +127,68 @@ theorem cache_key_bare_frozenset_witness :
     ((d0.callK Eex keyf tA).2.callK Eex keyf tB).1 = .found 1 ∧
     dispatch Eex sigs [1, 2, 0] tB = .found 2 := by decide
 
+/-! ### registrations interleaved with dispatches -/
+
+section
+variable (E : Env)
+
+/-- a history of registrations and calls through `addC clears` -/
+def runC (clears : Bool) (ord : List Sig → List Nat) : Disp → List Op → List (DRes × List Sig × List Nat × List Slot)
+  | _, [] => []
+  | d, .call t :: rest => ((d.call E t).1, d.sigs, d.order, t) :: runC clears ord (d.call E t).2 rest
+  | d, .add s :: rest => runC clears ord (d.addC clears ord s) rest
+
+theorem addC_coherent (ord : List Sig → List Nat) (d : Disp) (s : Sig) : Coherent E (d.addC true ord s) := by
+  intro k v h
+  simp [Disp.addC] at h
+
+/-- **dispatch after add = dispatch on the extended table**: when `add` clears the cache, along every
+    interleaving of registrations and calls each call answers `dispatch` of the table registered SO FAR
+    (for argument types seen before a registration and fresh ones alike). -/
+theorem runC_history_free (ord : List Sig → List Nat) :
+    ∀ (ops : List Op) (d : Disp), Coherent E d →
+      ∀ r ∈ runC E true ord d ops, r.1 = dispatch E r.2.1 r.2.2.1 r.2.2.2 := by
+  intro ops
+  induction ops with
+  | nil => intro d _ r hr; simp [runC] at hr
+  | cons op rest ih =>
+    intro d hd r hr
+    cases op with
+    | call t =>
+      simp only [runC] at hr
+      obtain ⟨h1, h2, _, _⟩ := call_eq_dispatch E d t hd
+      rcases List.mem_cons.mp hr with rfl | hr
+      · exact h1
+      · exact ih _ h2 r hr
+    | add s =>
+      simp only [runC] at hr
+      exact ih _ (addC_coherent E ord d s) r hr
+
+end
+
+open FV.Gen.C16 in
+/-- **obligation over the generated source form of `PartialDispatcher.add`**: a registration clears the
+    per-dispatcher cache (by delegating to `Dispatcher.add`, which does, or by itself). -/
+theorem add_clears_cache : addClearsCache = true := by decide
+
+open FV.Gen.C16 in
+/-- hence the live `add`/`partial_call` pair is history free over registrations too -/
+theorem live_register_dispatch_history_free (ord : List Sig → List Nat) (ops : List Op) (d : Disp)
+    (hd : Coherent table.env d) :
+    ∀ r ∈ runC table.env addClearsCache ord d ops, r.1 = dispatch table.env r.2.1 r.2.2.1 r.2.2.2 := by
+  rw [add_clears_cache]; exact runC_history_free table.env ord ops d hd
+
+/-- **witness**: an `add` that keeps the cache.  `int` is dispatched (default rule 0), then the pattern
+    `int` is registered, then `int` is dispatched again: the stale default is returned although the
+    extended table gives the new rule; a type not seen before (`float`, leaf 4) gets the right answer. -/
+theorem add_keeping_cache_witness :
+    let ord : List Sig → List Nat := fun sigs => (List.range sigs.length).reverse
+    let d0 : Disp := { sigs := [[.var [⟨true, .any⟩]]], order := [0], cache := [] }
+    let tInt : List Slot := [.one ⟨true, .cls 3⟩]
+    let d1 := (d0.call Eex tInt).2
+    let d2 := d1.addC false ord [.one ⟨true, .cls 3⟩]
+    (d0.call Eex tInt).1 = .found 0 ∧ (d2.call Eex tInt).1 = .found 0 ∧
+    dispatch Eex d2.sigs d2.order tInt = .found 1 ∧
+    ((d1.addC true ord [.one ⟨true, .cls 3⟩]).call Eex tInt).1 = .found 1 := by decide
+
 end FV.Props.C16
